@@ -51,6 +51,8 @@ ASSUMPTIONS = [
     "single-threaded use of TunnelEndpoint (no concurrent send); the model has no interleaving inside one call",
     "the opt-in needs a TunnelEndpoint (otherwise Community.__init__ only warns and the overlay sends raw)",
     "every send of an overlay goes through self.endpoint.send (sampled on five emitters of real Community objects)",
+    "nobody but the modelled ops switches a prefix off (the theorems' hypothesis `hno`): an assumption about the whole "
+    "code base, sampled through the real Community / TunnelCommunity load and unload paths only",
     "send_data raising is injected at send_cell; remove_circuit's close() happens when its @task body runs, one loop "
     "iteration after the call; circuit ids are not reused while the theorems' histories last",
     "an overlay's packets start with its 22-byte prefix (Community.ezr_pack / _ez_pack); anonymity is keyed on packet[:22]",
@@ -531,13 +533,22 @@ class Real:
                 tc.cancel_pending_task("do_circuits")
                 tc.cancel_pending_task("do_ping")
                 made.append(tc)
+            old_prefix = self.tc_prefix
+            self.tc_prefix = bytes([0]) + k.LifeTC.version + k.LifeTC.community_id   # its own, plain, traffic
             reply = self.quiet("TunnelCommunity.__init__", construct)
+            if not made:
+                self.tc_prefix = old_prefix
             if made:
                 self.tc, self.real_tc = made[0], True
                 self.tc_prefix = made[0].get_prefix()
                 self.att, self.hops = True, 1        # attached with the default length
                 self.anon.pop(self.tc_prefix, None)  # its own traffic is plain by construction
             return reply
+        if kind == "tcunload":
+            # the production detach: TunnelCommunity.unload (removes its circuits, lets go of the endpoint)
+            self.att, self.hops = False, 1
+            self.real_tc = False
+            return self.quiet("TunnelCommunity.unload", lambda: k.loop.run_until_complete(self.tc.unload()))
         if kind == "unload":
             if op[1] >= len(self.overlays):
                 return f"- q={len(self.ep.send_queue)}"
@@ -653,6 +664,39 @@ class Real:
                 ov.send_introduction_request(k.Peer(k.keys[1].pub(), k.dest[a]))
             elif how == "puncture":
                 ov.endpoint.send(k.dest[a], ov.create_puncture(k.dest[1], k.dest[2], 7))
+            elif how == "ez_send":
+                # an application message through EZPackOverlay.ez_send / _ez_senda
+                from ipv8.messaging.payload import PuncturePayload
+                ov.ez_send(k.Peer(k.keys[1].pub(), k.dest[a]), PuncturePayload(k.dest[1], k.dest[2], byte))
+            elif how == "punct_req":
+                # an incoming puncture request makes the overlay send a puncture (Community.on_puncture_request)
+                peer_ov = type(ov)(k.CommunitySettings(my_peer=k.Peer(k.keys[2]), endpoint=k.RecEndpoint([]),
+                                                       network=k.Network()))
+                self.helpers.append(peer_ov)
+                ov.on_packet((k.dest[a], peer_ov.create_puncture_request(k.dest[1], k.dest[a], byte)))
+            elif how == "bootstrap":
+                # a UDPBroadcastBootstrapper announces the overlay on the LAN from a socket of its own, on the node's
+                # address: nothing of an anonymized overlay may go out that way
+                from ipv8.bootstrapping.udpbroadcast import bootstrapper as bmod
+                own = []
+                o_open, o_send = bmod.BroadcastBootstrapEndpoint.open, bmod.BroadcastBootstrapEndpoint.send
+
+                async def fake_open(_self):
+                    return True
+                bmod.BroadcastBootstrapEndpoint.open = fake_open
+                bmod.BroadcastBootstrapEndpoint.send = lambda _self, _ad, d: own.append(d)
+                try:
+                    bs = bmod.UDPBroadcastBootstrapper()
+                    k.loop.run_until_complete(bs.initialize(ov))
+                    if bs.endpoint is not None:
+                        bs.keep_alive(ov)
+                finally:
+                    bmod.BroadcastBootstrapEndpoint.open, bmod.BroadcastBootstrapEndpoint.send = o_open, o_send
+                mine = [d for d in own if ov.get_prefix() in d]
+                if want and mine:
+                    self._bad("UDPBroadcastBootstrapper.initialize:own-socket-beacon",
+                              f"{len(mine)} datagrams naming the anonymized overlay's prefix {ov.get_prefix().hex()} were "
+                              "broadcast from the bootstrapper's own socket on the node's address")
             elif how == "respond":
                 # an introduction request arrives (from the socket or the tunnel, the handler is the same): the overlay
                 # answers with an introduction response (and possibly a puncture request) through its endpoint
@@ -1039,6 +1083,7 @@ def exhaustive_tier(ctx: Ctx, name: str, k: int, depth: int, use_model: bool, pl
     drv = ctx.driver() if use_model else None
     n = 0
     for d in range(1, depth + 1):
+        n_before = n
         pl = min(plen, max(0, d - 3))
         for pre in itertools.product(range(k), repeat=pl):
             digests, words = [], []
@@ -1073,13 +1118,28 @@ def exhaustive_tier(ctx: Ctx, name: str, k: int, depth: int, use_model: bool, pl
                                       "impl": impl})
                         if len(ctx.disagreements) >= 5:
                             break
-        ctx.count(f"exhaustive:{name}[:{k}]:depth{d}", k ** d)
+        ctx.count(f"exhaustive:{name}[:{k}]:depth{d}", n - n_before)
     return n
 
 
 # ---------------------------------------------------------------------------------------------------------------------
 # overlay scenarios: real Community objects opting in through settings.anonymize
 # ---------------------------------------------------------------------------------------------------------------------
+def do_tcunload(ctx: Ctx, real: Real, lines, expect, record):
+    """TunnelCommunity.unload inside a history; for the model: every circuit is closed and popped, then detach"""
+    cids = list(real.tc.circuits)
+    reply = real.do(("tcunload",))
+    record.append(("tcunload",))
+    for cid in cids:
+        lines += [f"rmreq {cid}", f"rmdone {cid}"]
+        expect += [reply, reply]
+    lines.append("settc 0 1")
+    expect.append(reply)
+    lines.append("dump")
+    expect.append(real.dump())
+    ctx.count("overlay:TunnelCommunity.unload inside the history (%d circuits)" % min(len(cids), 3))
+
+
 def do_emit(ctx: Ctx, real: Real, op, lines, expect, record):
     """an overlay sends through its own code path; one model `send` line per call that reached TunnelEndpoint.send"""
     record.append(op)
@@ -1149,7 +1209,8 @@ def overlay_tier(ctx: Ctx, n_scen: int, use_model: bool):
                     break
                 if r < 0.5:
                     i = rng.choice(live)
-                    how = rng.choice(["walk_to", "puncture", "raw", "send_intro", "respond"])
+                    how = rng.choice(["walk_to", "puncture", "raw", "send_intro", "respond", "ez_send", "punct_req"]
+                                     + ["bootstrap"] * (rng.random() < 0.08))
                     ctx.count("overlay-send:" + how + (":anonymized" if real.overlays[i][1] else ":plain"))
                     do_emit(ctx, real, ("emit", i, how, rng.randrange(0, 6), rng.randrange(256)), lines, expect, record)
                 elif r < 0.68:
@@ -1162,6 +1223,8 @@ def overlay_tier(ctx: Ctx, n_scen: int, use_model: bool):
                     run_history(ctx, real, [(rng.choice(["close", "rm"]), 0)], lines, expect, record)
                 elif r < 0.82 and not real.real_tc:
                     run_history(ctx, real, [("settc", rng.random() < 0.6, rng.choice([1, 1, 2]))], lines, expect, record)
+                elif r < 0.835 and real.real_tc:
+                    do_tcunload(ctx, real, lines, expect, record)
                 elif r < 0.86:
                     run_history(ctx, real, [("fail", rng.choice([0, 0, 1, 2]))], lines, expect, record)
                 elif r < 0.91 and len(live) > 1:
